@@ -18,7 +18,7 @@ from ..translator import py2lean
 from ..common import enc, ask, call
 
 LEVEL = "proof"
-PROP_FILES = ["PersimVerif/Props/C04.lean", py2lean.prop_file("weights")]
+PROP_FILES = ["PersimVerif/Props/C04.lean", py2lean.prop_file("weights")] + py2lean.prop_files("image")
 RULE = ("one PRNG; imagers on NON-square grids (rx, ry in 1..7, rx != ry in 6 of 7 cases; plus a class of 24 / 150 LARGE grids 40x3, 3x40, "
         "64x64, 64x5, 33x17, 1x100, 128x2 with the uniform / zero-covariance Gaussian kernel at 1x/4x/12x the usual size and 4-24 points, "
         "every pixel against the closed-form mass), pixel sizes dyadic and non-dyadic, "
@@ -40,7 +40,7 @@ ASSUMPTIONS = [
     "mesh `_bpnts/_ppnts` and `resolution` are taken from the imager (C12 proves their geometry); the model requires len(mesh) = resolution + 1",
     "NumPy slicing / broadcasting / += semantics as modelled (lists of lists, row-major); float rounding is outside the theorems (1e-12 / 1e-9 tolerances, exact on dyadic uniform cases)",
 ]
-TRUSTED = [py2lean.trusted_note("weights"),
+TRUSTED = [py2lean.trusted_note("weights"), py2lean.trusted_note("image"),
            "scipy.special.ndtr, scipy.integrate.quad/dblquad as independent oracles of the [T] streams"]
 
 # theorems that carry a clause of the property (of 20 in Props/C04.lean); not listed: `rfl` restatements (skew_is_bp, toBP_spec,
@@ -677,8 +677,9 @@ def judge_inside(case, budget=40):
 
 
 def pre_build(ctx):
-    """source translator (DESIGN.md 3.2): regenerate Generated/SrcWeights.lean from PERSIM_ROOT's source"""
-    py2lean.pre_build(ctx, ("weights",))
+    """source translator (DESIGN.md 3.2): regenerate Generated/SrcWeights.lean and Generated/SrcImage.lean (the image assembly:
+    `_transform`, `transform`, `fit_transform`) from PERSIM_ROOT's source"""
+    py2lean.pre_build(ctx, ("weights", "image"))
 
 
 def run(ctx):
@@ -1022,4 +1023,4 @@ MANIFEST = {
             "accepted vacuously). Float rounding is outside the theorems.",
     "technique": "Lean 4 theorems (incl. Mathlib measure theory) over a hand-written model + differential correspondence + numerical integration tests",
 }
-MANIFEST["note"] += " " + py2lean.manifest_note("weights")
+MANIFEST["note"] += " " + py2lean.manifest_note("weights") + " " + py2lean.manifest_note("image")
